@@ -7,7 +7,7 @@ package host
 
 //@ func (*Set).Healthy
 //@   prop C18 C06 C15
-//@   requires set != nil
+
 //@   modifies nothing
 //@   ensures @members-non-nil forall k int :: 0 <= k && k < len(result) ==> result[k] != nil
 //@   ensures @is-the-cached-list typeis(aval[set.healthyCache.Value], "[]*Host") ==> result == unbox(aval[set.healthyCache.Value], "[]*Host")
@@ -15,14 +15,14 @@ package host
 
 //@ func (*Set).Random
 //@   prop C03 C15
-//@   requires set != nil
+
 //@   modifies nothing
 
 // ---- C15: the host set (invariant over the three maps) --------------------------------------------
 
 //@ func (*Set).healthy
 //@   prop C15 C03 C06
-//@   requires set != nil
+
 //@   modifies nothing
 //@   ensures @prefers-main result == ite(len(set.healthyMain) == 0, set.healthyBackup, set.healthyMain)
 
